@@ -3,13 +3,15 @@
    Proved here, for every configuration accepted by Start and every write history:
    part durations add up exactly to the segment duration; TARGETDURATION / PART-TARGET of the
    leading stream dominate every listed EXTINF (as the text prints it) / part; hold-back and
-   skip-until arithmetic; TARGETDURATION computed after rounding to the text's resolution.
+   skip-until arithmetic; TARGETDURATION computed after rounding to the text's resolution;
+   TARGETDURATION of the leading stream's playlist never decreases between two moments of a history
+   (c03_target_never_decreases: any state, any further writes).
    Checked by the correspondence run + oracle, not proved: EXTINF equals the media time spanned by
    the leading track's samples, PROGRAM-DATE-TIME equals the wall clock of the first unit, the
    non-leading streams copy the leading stream's values. *)
 From Coq Require Import List ZArith Bool.
 From GoHls Require Import Model.Mux Proofs.MuxStream Proofs.MuxLift Proofs.MuxWindow Proofs.MuxHistory
-  Proofs.MuxPlaylist Proofs.MuxTimes.
+  Proofs.MuxPlaylist Proofs.MuxTimes Proofs.MuxTargetMono.
 Import ListNotations.
 Local Open Scope Z_scope.
 
@@ -58,3 +60,10 @@ Print Assumptions c03_times_invariant.
 Theorem c03_parts_telescope : forall ps a b, parts_chain a ps b -> sumZ (map p_dur ps) = b - a.
 Proof. exact parts_chain_sum. Qed.
 Print Assumptions c03_parts_telescope.
+
+Theorem c03_target_never_decreases : forall m ops si s pl pl',
+  nth_error (m_streams m) si = Some s -> st_leading s = true ->
+  gen_media_playlist m si = Some pl -> gen_media_playlist (mux_run m ops) si = Some pl' ->
+  pl_target pl <= pl_target pl'.
+Proof. exact playlist_target_monotone. Qed.
+Print Assumptions c03_target_never_decreases.
